@@ -86,3 +86,10 @@ package types
 //@   requires x != nil
 //@   assigns nothing
 //@   ensures [quoted] result == strconv.Quote(x.native)
+
+// C04: formatting a (materialised) array never panics, whatever its elements format to - in particular the indent
+// handling of the multi-line layout (fixed defect: an empty element next to a multi-line one)
+//@ func (x *XArray) Format
+//@   nopanic
+//@   havocs Format, Indent, ContainsRune, Join
+//@   requires x != nil && x.data != nil
